@@ -1182,7 +1182,10 @@ def evaluate__xml_to_json(self: XPathFunction, context: ta.ContextType = None) \
                     if math.isnan(number) or math.isinf(number):
                         msg = f'invalid number value {value!r}'
                         raise self.error('FOJS0006', msg)
-                    chunks.append(str(number).rstrip('0').rstrip('.'))
+                    text = str(number)
+                    if '.' in text and 'e' not in text:
+                        text = text.rstrip('0').rstrip('.')  # not the zeros of an exponent
+                    chunks.append(text)
 
             elif child.tag == STRING_TAG:
                 check_attributes('key', 'escaped-key', 'escaped')
